@@ -106,7 +106,10 @@ func (w *Walker) Walk(
 	ctx, cancelFunc := context.WithCancel(ctx)
 	w.allCancel = cancelFunc
 
-	// populate info map
+	// populate the info map completely before any routine is started:
+	// running routines read it (startNode/cancelNode) and a dependant that
+	// is not registered yet would miss its ready or cancel message
+	var selectedNodes []model.BuildNode
 	for _, node := range w.graph.nodes {
 		if !node.GetIsSelected() {
 			// skip unselected targets
@@ -122,11 +125,16 @@ func (w *Walker) Walk(
 			ready:  readyCh,
 			cancel: cancelCh,
 		}
+		selectedNodes = append(selectedNodes, node)
+	}
 
+	for _, node := range selectedNodes {
 		w.wait.Add(1)
 		// start all routines
 		go w.nodeRoutine(ctx, node, w.nodeInfoMap[node.GetLabel()])
+	}
 
+	for _, node := range selectedNodes {
 		// start all routines with no dependencies immediately
 		if len(w.graph.inEdges[node.GetLabel()]) == 0 {
 			w.startNode(node)
